@@ -435,6 +435,20 @@ class Check(core.CheckBase):  # pylint: disable=too-many-public-methods
             for zone in self.zones:
                 set_tz(zone)
                 self.stats['timestamp_tz_evaluations'] += 1
+                # the instant the class fills in by itself is "now", whatever the zone of the process (minutes of tolerance
+                # against zone offsets of a quarter of an hour and more)
+                try:
+                    before = time.time()
+                    chosen = int.from_bytes(bytes(self.sub.TlsHandshakeHelloRandom().compose())[:4], 'big')
+                    self.stats['default_instants_checked'] += 1
+                    if not before - 300 <= chosen <= time.time() + 300:
+                        found.append(self.violation(
+                            'timestamp|hello-random-default-time',
+                            'a hello random built without a time carries %d under TZ=%s, the clock says %d' % (
+                                chosen, zone, int(before)), single))
+                except Exception as e:  # pylint: disable=broad-except
+                    found.append(self.violation('timestamp|hello-random-default-raises:%s' % type(e).__name__,
+                                                'TlsHandshakeHelloRandom() under TZ=%s: %r' % (zone, e), single))
                 for kind, value in variants.items():
                     for item_size, milliseconds in ((8, False), (8, True), (4, False)):
                         tag = (kind, item_size, milliseconds)
